@@ -224,3 +224,13 @@ Theorem C10_nonvacuous_sound :
   sni_route_name (enc_record 3 1 ex_hello ++ [23; 3; 3]) = Ok (nlen (enc_record 3 1 ex_hello), bs "foo.com"%string).
 Proof. exact ex_route_sound_nonvacuous. Qed.
 Print Assumptions C10_nonvacuous_sound.
+
+(* legacy_session_id<0..32> (RFC 5246 7.4.1.2, RFC 8446 4.1.2): a hello whose session id is
+   longer than 32 bytes is malformed and is never parsed, whatever else it contains.  crypto/tls's
+   own unmarshal does not enforce this bound, so a crypto/tls server does hand out a
+   ClientHelloInfo for such bytes: the check treats them as malformed (Check/C10.v sid_too_long),
+   not as a well-formed hello fabio fails to read. *)
+Theorem C10_long_session_id_rejected : forall (d : str) (sl : N) (n : str),
+  idx d 38 = Ok sl -> (32 < sl)%N -> read_server_name d <> Ok n.
+Proof. exact long_session_id_rejected. Qed.
+Print Assumptions C10_long_session_id_rejected.
